@@ -46,6 +46,22 @@ def handle (args : List String) (_impl : List String) : String :=
       if !(A.isSymm) then s!"bad {what}: covariance matrix is not symmetric"
       else if checkPSD tau A then "ok" else s!"bad {what}: covariance matrix is not positive semi-definite (exact LDLt of A + tau I has a negative pivot)"
     | _, _, _ => "bad-op"
+  -- symmetric positive definite up to rounding: |A - At| <= 2^-40 scale, then (A + At)/2 certified
+  | ["spd", what, n, vals] =>
+    match n.toNat?, parseQs? vals with
+    | some n, some vals =>
+      if vals.length ≠ n * n then "bad-op" else
+      let A := Mat.ofFn n n fun i j => vals.getD (i * n + j) 0
+      let scale := maxQ (pow2 (-200)) A.maxAbs
+      let asym := (List.range n).any fun i => (List.range n).any fun j => absQ (A.get i j - A.get j i) > pow2 (-40) * scale
+      if asym then s!"bad {what}: matrix is not symmetric (beyond 2^-40 of its largest entry)"
+      else
+        let S := Mat.ofFn n n fun i j => (A.get i j + A.get j i) / 2
+        -- strictly positive definite: S - tau I still positive semi-definite, tau = 2^-40 of the smallest diagonal term
+        let dmin := (List.range n).foldl (fun m i => minQ m (S.get i i)) (S.get 0 0)
+        if dmin ≤ 0 then s!"bad {what}: non-positive diagonal term"
+        else if checkPSD (-(pow2 (-40) * dmin)) S then "ok" else s!"bad {what}: matrix is not positive definite (exact LDLt has a non-positive pivot)"
+    | _, _ => "bad-op"
   | ["bound", what, c0, ch, chn, gam] =>
     match parseQ? c0, parseQ? ch, parseQ? chn, parseQ? gam with
     | some c0, some ch, some chn, some gam =>
